@@ -22,7 +22,7 @@ MANIFEST = dict(
     ref='3/C19')
 
 TRANS = [None, '', 'ab', 'ba', 'b', 'bab']
-LOGITS = ['ab', 'ba', 'diffuse', 'bb', 'perchar', 'bab_leaky', 'perchar_off']
+LOGITS = ['ab', 'ba', 'diffuse', 'bb', 'perchar', 'bab_leaky', 'perchar_off', 'ab_big32']
 ORDERS = [['a', 'b', '​'], ['b', 'a', '​']]
 BOUNDS = {'quick': dict(engines=3, three_engine_variants=26, two_line_variants=12),
           'thorough': dict(engines=3, three_engine_variants=10 ** 6, two_line_variants=20)}
@@ -93,6 +93,10 @@ def build_logits(kind, order, trans):
         r = [lo, lo - 0.5, lo - 1.0]
         r[sym] = hi
         return r
+    if kind == 'ab_big32':
+        # a very confident engine emitting float32 logits of large magnitude (beyond the exp() range of float32)
+        seq = [col['a'], blank, col['b'], blank, blank]
+        return np.asarray([row(s, hi=95.0, lo=-20.0) for s in seq], dtype=np.float32)
     if kind in ('ab', 'ba', 'bb'):
         seq = [col[kind[0]], blank, col[kind[1]], blank, blank]
         M = [row(s) for s in seq]
@@ -141,7 +145,7 @@ def ref_confidences(line):
         return None
     cmap = {c: i for i, c in enumerate(line.characters)}
     labels = [cmap[c] for c in line.transcription]
-    dense = line.logits.toarray()
+    dense = line.logits.toarray()          # keep the dtype of the logits (float32 engines: float32 arithmetic, as the library does)
     dense[dense == 0] = -80
     logp = dense - np.logaddexp.reduce(dense, axis=1)[:, None]
     P = np.exp(logp)
@@ -199,7 +203,7 @@ def check_case(case, ctx):
             if r is not None:
                 got = mor.get_confidences(copy.deepcopy(c))
                 ctx.executed()
-                if len(got) != len(r) or np.abs(np.asarray(got) - np.asarray(r)).max() > 1e-9:
+                if len(got) != len(r) or np.abs(np.asarray(got) - np.asarray(r)).max() > (1e-9 if c.logits.dtype == np.float64 else 1e-5):
                     ctx.violation('mean-character-confidence', f'{K}/confidence-differs-from-reference-definition',
                                   f'line {li} variant {engines[[id(x) for x in cands].index(id(c))][li]}: get_confidences = {list(got)}, '
                                   f'reference definition = {r}')
@@ -234,7 +238,7 @@ def check_case(case, ctx):
             continue
         if defined and confs[want] > 0:
             tc = m.transcription_confidence
-            if tc is None or abs(float(tc) - confs[want]) > 1e-9:
+            if tc is None or abs(float(tc) - confs[want]) > (1e-9 if w.logits.dtype == np.float64 else 1e-5):
                 ctx.violation('records-maximum-confidence', f'{K}/recorded-confidence',
                               f'{desc}: transcription_confidence = {tc}, maximum mean confidence = {confs[want]}')
         if len(defined) >= 2:
